@@ -1,5 +1,5 @@
 import sys, random, collections
-src = open('/tmp/explore/exp2.py').read().split("rng = random.Random")[0]
+src = open(__import__('os').path.join(__import__('os').path.dirname(__import__('os').path.abspath(__file__)), 'exp2.py')).read().split("rng = random.Random")[0]
 exec(src)
 def components(d):
     n = len(d); parent = list(range(n))
